@@ -180,10 +180,12 @@ def lean_audit(props_file, module):
             problems.append("forbidden construct %r in %s" % (m.group(0).strip(), os.path.relpath(f, LEAN_DIR)))
     thms = theorems_in(props_file)
     os.makedirs(os.path.join(LEAN_DIR, ".audit"), exist_ok=True)
-    tag = module.replace(".", "_")
+    modules = [module] if isinstance(module, str) else list(module)
+    tag = modules[0].replace(".", "_")
     path = os.path.join(LEAN_DIR, ".audit", tag + ".lean")
     with open(path, "w") as f:
-        f.write("import %s\n" % module)
+        for m in modules:
+            f.write("import %s\n" % m)
         for t in thms:
             f.write("#print axioms %s\n" % t)
     try:
